@@ -412,6 +412,26 @@ func productMemoRule(P *Program, R *Report) {
 	R.decide(rule, kProduct+":key-recorded", "whenever the cache is filled, the `from` it was computed for is recorded with it", stProd != nil && stKey != nil && stProd.Block() == stKey.Block(), "", P.Pos(fn.Pos()))
 	// the computed product ranges over Events[from - Events[0].Index:]
 	R.decide(rule, kProduct+":window", "the product ranges over the events from index `from` on", okWin, "", P.Pos(fn.Pos()))
+	// ... and a miss recomputes from the events alone: the remembered product (computed for another `from`) is never an
+	// operand of the new one. (An incremental extension of the cache would be a second window to get right - the
+	// event at the old key counted once - and is not among the forms this rule knows: it reports it.)
+	okFresh := true
+	var detail []string
+	deepVisit(P, fn, 1, func(g *ssa.Function) {
+		for _, c := range callsIn(g) {
+			call, isC := c.(*ssa.Call)
+			if !isC || bigMethod(c) == "" || !bigMutators[bigMethod(c)] {
+				continue
+			}
+			for _, a := range callArgs(call)[1:] {
+				if d := desc(siteOf(a)); d == upd+".product" {
+					okFresh = false
+					detail = append(detail, P.Pos(call.Pos())+": "+bigMethod(c)+" takes the remembered product as an operand")
+				}
+			}
+		}
+	})
+	R.decide(rule, kProduct+":miss-recomputes-from-events", "on a cache miss the product is computed from the events alone; the remembered product is not an operand of it", okFresh, strings.Join(detail, "\n"), P.Pos(fn.Pos()))
 	// Prepend
 	if pf := mustFunc(P, R, rule, "revocation.(*Update).Prepend"); pf != nil {
 		// the merged update's cache is either dropped or re-keyed to the new first index
